@@ -268,8 +268,13 @@ class ResourceCitation(CitationBase):
     def __hash__(self) -> int:
         """ResourceCitation objects are hashed in the same way as their
         parent class (CitationBase) objects, except that we also take into
-        consideration the all_editions field.
+        consideration the all_editions field. As for case citations, a
+        citation whose page is a placeholder ("1 Minn. L. Rev. ___") is only
+        ever equal to itself: two such citations need not be the same
+        document.
         """
+        if "page" in self.groups and self.groups["page"] is None:
+            return id(self)
         return hash(
             hash_sha256(
                 {
